@@ -141,7 +141,7 @@ func (env *Env) call(e *spec.Call) Value {
 			}
 		}
 		t := smt.BVLit(uint64(n), 64)
-		if len(env.st.callBase) > 0 || env.st.unknownCalls {
+		if len(env.st.callBase) > 0 || env.st.unknownCalls || env.st.lazyBase {
 			t = smt.BVBin("bvadd", t, en.ctx.Fresh("unknownevents", bv64))
 		}
 		return scalar(tInt, t)
@@ -636,6 +636,11 @@ func (x *exec) resolveCalleeName(pkgPath, s string) string {
 	if k, ok := x.calleeNameCache[pkgPath+"|"+s]; ok {
 		return k
 	}
+	switch s {
+	case "chan.recv", "chan.send", "chan.select":
+		// channel operations of the unit, recorded as quiet events
+		return "chan:" + s[5:]
+	}
 	f := &spec.File{Pkg: pkgPath, Imports: map[string]string{}}
 	for _, ff := range x.e.w.Files {
 		if ff.Pkg == pkgPath {
@@ -680,6 +685,12 @@ func (x *exec) callCount(st *State, key string) smt.Term {
 		}
 	}
 	t := smt.BVLit(uint64(n), 64)
+	if _, ok := st.callBase[key]; !ok && st.lazyBase {
+		b := x.e.ctx.Fresh("ncallsbefore", bv64)
+		st.assume(smt.BVCmp("bvsge", b, zero64))
+		st.assume(smt.BVCmp("bvsle", b, smt.BVLit(1<<40, 64)))
+		st.callBase[key] = b
+	}
 	if b, ok := st.callBase[key]; ok {
 		t = smt.BVBin("bvadd", b, t)
 	}
@@ -761,6 +772,15 @@ func (env *Env) emitted(recv, evt Value) smt.Term {
 
 func (env *Env) nthEvent(fe, ke spec.Expr) *Event {
 	key := env.calleeRef(fe)
+	if id, ok := ke.(*spec.Ident); ok && id.Name == "last" {
+		// the most recent event of that key on this path (since the last loop head or path join)
+		for i := len(env.st.trace) - 1; i >= 0; i-- {
+			if env.x.eventMatches(env.st.trace[i], key) {
+				return env.st.trace[i]
+			}
+		}
+		panic(noSuchEvent{key, -1})
+	}
 	lit, ok := ke.(*spec.Lit)
 	if !ok || lit.Kind != "int" {
 		specErr("call ordinal must be a literal")
